@@ -2,22 +2,60 @@ package engine
 
 import (
 	"go/token"
+	"go/types"
 
 	"golang.org/x/tools/go/ssa"
 )
 
 // Cond is a branch condition known to have the given truth value.
+//
+// A condition obtained by looking *through a boolean helper* (the helper's
+// result is known, so the tests its body performed on every path to that
+// result are known too) has V inside the helper and Sub mapping the helper's
+// parameters to the caller's argument values; use R to bring an operand back
+// into the caller's terms.
 type Cond struct {
 	V   ssa.Value
 	Pol bool
 	If  *ssa.If
+	Sub *Subst
+}
+
+// Subst maps a helper's parameters to the values passed at the call whose result was tested.
+type Subst struct {
+	Params map[*ssa.Parameter]ssa.Value
+	Up     *Subst
+}
+
+// R resolves an operand of the condition to the calling function's value
+// (stripped); operands that are not helper parameters are returned stripped.
+func (c Cond) R(v ssa.Value) ssa.Value {
+	v = Strip(v)
+	for s := c.Sub; s != nil; s = s.Up {
+		p, ok := v.(*ssa.Parameter)
+		if !ok {
+			break
+		}
+		a, ok := s.Params[p]
+		if !ok {
+			break
+		}
+		v = Strip(a)
+	}
+	return v
 }
 
 // BlockConds returns the branch conditions that hold on every path reaching
 // block b (edge dominance): for each dominating If block D, if one successor
 // edge D->S is such that S has D as its only predecessor and S dominates b,
-// then the condition holds with that edge's polarity.
+// then the condition holds with that edge's polarity.  Conditions that are the
+// result of a module helper are followed by the conditions that result implies
+// inside the helper (ImpliedByResult).
 func BlockConds(b *ssa.BasicBlock) []Cond {
+	return ExpandConds(rawBlockConds(b), 0)
+}
+
+func rawBlockConds(b *ssa.BasicBlock) []Cond {
 	var out []Cond
 	seen := map[*ssa.BasicBlock]bool{}
 	for x := b; x != nil && !seen[x]; x = x.Idom() {
@@ -34,18 +72,194 @@ func BlockConds(b *ssa.BasicBlock) []Cond {
 			continue
 		}
 		if d.Succs[0] == x {
-			out = append(out, flatten(Cond{ifi.Cond, true, ifi})...)
+			out = append(out, flatten(Cond{V: ifi.Cond, Pol: true, If: ifi})...)
 		} else if d.Succs[1] == x {
-			out = append(out, flatten(Cond{ifi.Cond, false, ifi})...)
+			out = append(out, flatten(Cond{V: ifi.Cond, Pol: false, If: ifi})...)
 		}
 	}
+	return out
+}
+
+// callResult: v is the (idx-th) result of a call.
+func callResult(v ssa.Value) (*ssa.Call, int) {
+	switch x := v.(type) {
+	case *ssa.Call:
+		return x, 0
+	case *ssa.Extract:
+		if c, ok := x.Tuple.(*ssa.Call); ok {
+			return c, x.Index
+		}
+	}
+	return nil, 0
+}
+
+// ExpandConds appends, for every condition that is a module helper's boolean
+// result, the conditions implied inside the helper.
+func ExpandConds(conds []Cond, depth int) []Cond {
+	out := conds
+	if depth > 3 {
+		return out
+	}
+	for _, c := range conds {
+		if ph, ok := c.V.(*ssa.Phi); ok {
+			if bt, ok := ph.Type().Underlying().(*types.Basic); ok && bt.Kind() == types.Bool && !phiBusy[ph] {
+				phiBusy[ph] = true
+				defer delete(phiBusy, ph)
+				for _, ic := range intersectConds(outcomeSets(ph, c.Pol, nil, map[ssa.Value]bool{})) {
+					if ic.V == c.V {
+						continue
+					}
+					ic.If = c.If
+					ic.Sub = chainSubst(ic.Sub, c.Sub)
+					out = append(out, ic)
+				}
+			}
+			continue
+		}
+		call, idx := callResult(c.V)
+		if call == nil {
+			continue
+		}
+		callee := call.Call.StaticCallee()
+		if callee == nil || callee.Blocks == nil || len(callee.FreeVars) != 0 || !InModule(FuncPkgPath(callee)) {
+			continue
+		}
+		imp := ImpliedByResult(callee, idx, c.Pol)
+		if len(imp) == 0 {
+			continue
+		}
+		sub := &Subst{Params: map[*ssa.Parameter]ssa.Value{}, Up: c.Sub}
+		for i, p := range callee.Params {
+			if i < len(call.Call.Args) {
+				sub.Params[p] = call.Call.Args[i]
+			}
+		}
+		var inner []Cond
+		for _, ic := range imp {
+			// ic may itself come from a nested helper: chain the substitutions
+			nc := Cond{V: ic.V, Pol: ic.Pol, If: c.If, Sub: sub}
+			if ic.Sub != nil {
+				nc.Sub = chainSubst(ic.Sub, sub)
+			}
+			inner = append(inner, nc)
+		}
+		out = append(out, inner...)
+	}
+	return out
+}
+
+func chainSubst(inner, outer *Subst) *Subst {
+	if inner == nil {
+		return outer
+	}
+	return &Subst{Params: inner.Params, Up: chainSubst(inner.Up, outer)}
+}
+
+// outcomeSets: for boolean value v, the condition sets (one per way v can come to equal pol)
+// known when v == pol; base are the conditions already known where v is used.
+func outcomeSets(v ssa.Value, pol bool, base []Cond, seen map[ssa.Value]bool) [][]Cond {
+	if b, ok := ConstBool(v); ok {
+		if b == pol {
+			return [][]Cond{base}
+		}
+		return nil
+	}
+	if u, ok := v.(*ssa.UnOp); ok && u.Op == token.NOT {
+		return outcomeSets(u.X, !pol, base, seen)
+	}
+	if ph, ok := v.(*ssa.Phi); ok {
+		if seen[ph] {
+			return nil
+		}
+		seen[ph] = true
+		var sets [][]Cond
+		for i, e := range ph.Edges {
+			p := ph.Block().Preds[i]
+			pc := append([]Cond{}, BlockConds(p)...)
+			if ifi, ok := p.Instrs[len(p.Instrs)-1].(*ssa.If); ok && len(p.Succs) == 2 && p.Succs[0] != p.Succs[1] {
+				pc = append(pc, ExpandConds(flatten(Cond{V: ifi.Cond, Pol: p.Succs[0] == ph.Block(), If: ifi}), 0)...)
+			}
+			sets = append(sets, outcomeSets(e, pol, pc, seen)...)
+		}
+		return sets
+	}
+	return [][]Cond{append(append([]Cond{}, base...), ExpandConds(flatten(Cond{V: v, Pol: pol}), 0)...)}
+}
+
+func intersectConds(sets [][]Cond) []Cond {
+	var out []Cond
+	if len(sets) == 0 {
+		return nil
+	}
+	for _, c := range sets[0] {
+		inAll := true
+		for _, s := range sets[1:] {
+			found := false
+			for _, d := range s {
+				if d.V == c.V && d.Pol == c.Pol {
+					found = true
+					break
+				}
+			}
+			if !found {
+				inAll = false
+				break
+			}
+		}
+		if inAll {
+			out = append(out, c)
+		}
+	}
+	return out
+}
+
+type impliedKey struct {
+	f   *ssa.Function
+	idx int
+	pol bool
+}
+
+var phiBusy = map[*ssa.Phi]bool{}
+var impliedMemo = map[impliedKey][]Cond{}
+var impliedBusy = map[impliedKey]bool{}
+
+// ImpliedByResult returns conditions (in f's own values) that hold on every
+// path of f ending in a return whose idx-th (boolean) result can equal pol.
+func ImpliedByResult(f *ssa.Function, idx int, pol bool) []Cond {
+	k := impliedKey{f, idx, pol}
+	if r, ok := impliedMemo[k]; ok {
+		return r
+	}
+	if impliedBusy[k] {
+		return nil
+	}
+	impliedBusy[k] = true
+	defer delete(impliedBusy, k)
+	res := f.Signature.Results()
+	if idx >= res.Len() {
+		impliedMemo[k] = nil
+		return nil
+	}
+	if b, ok := res.At(idx).Type().Underlying().(*types.Basic); !ok || b.Kind() != types.Bool {
+		impliedMemo[k] = nil
+		return nil
+	}
+	var sets [][]Cond
+	for _, r := range Returns(f) {
+		if idx >= len(r.Results) {
+			continue
+		}
+		sets = append(sets, outcomeSets(ReturnValue(r, idx), pol, BlockConds(r.Block()), map[ssa.Value]bool{})...)
+	}
+	out := intersectConds(sets)
+	impliedMemo[k] = out
 	return out
 }
 
 // flatten normalises !x.
 func flatten(c Cond) []Cond {
 	if u, ok := c.V.(*ssa.UnOp); ok && u.Op == token.NOT {
-		return flatten(Cond{u.X, !c.Pol, c.If})
+		return flatten(Cond{V: u.X, Pol: !c.Pol, If: c.If, Sub: c.Sub})
 	}
 	return []Cond{c}
 }
@@ -344,4 +558,82 @@ func ReachableAvoiding(f *ssa.Function, target ssa.Instruction, avoid func(ssa.I
 		return false
 	}
 	return walk(f.Blocks[0])
+}
+
+// NilLeaves: the values whose being nil is the only way v can be nil.  A phi is
+// opened edge by edge; an edge whose value is known non-nil under the
+// conditions of its predecessor (e.g. the `err != nil` branch that assigned it)
+// is dropped, as are constants that are not nil.
+func NilLeaves(v ssa.Value) []ssa.Value {
+	var out []ssa.Value
+	seen := map[ssa.Value]bool{}
+	var walk func(v ssa.Value, conds []Cond)
+	walk = func(v ssa.Value, conds []Cond) {
+		v = Strip(v)
+		if seen[v] {
+			return
+		}
+		seen[v] = true
+		if conds != nil && KnownNonNil(conds, v) {
+			return
+		}
+		if _, ok := v.(*ssa.MakeInterface); ok {
+			return
+		}
+		ph, ok := v.(*ssa.Phi)
+		if !ok {
+			out = append(out, v)
+			return
+		}
+		for i, e := range ph.Edges {
+			p := ph.Block().Preds[i]
+			pc := append([]Cond{}, BlockConds(p)...)
+			if ifi, ok := p.Instrs[len(p.Instrs)-1].(*ssa.If); ok && len(p.Succs) == 2 && p.Succs[0] != p.Succs[1] {
+				pc = append(pc, flatten(Cond{V: ifi.Cond, Pol: p.Succs[0] == ph.Block(), If: ifi})...)
+			}
+			if c, ok := e.(*ssa.Const); ok && !IsNilConst(c) {
+				continue
+			}
+			walk(e, pc)
+		}
+	}
+	walk(v, nil)
+	return out
+}
+
+// Outcome is one way a value can come about: the leaf value (a phi opened edge by
+// edge) together with the conditions known on that way.
+type Outcome struct {
+	V     ssa.Value
+	Conds []Cond
+}
+
+// ValueOutcomes opens phis: each incoming edge contributes its value under the
+// conditions of the predecessor block and of the edge itself.  A non-phi value
+// has the single outcome (v, BlockConds(at)).
+func ValueOutcomes(v ssa.Value, at *ssa.BasicBlock) []Outcome {
+	var out []Outcome
+	seen := map[ssa.Value]bool{}
+	var walk func(v ssa.Value, conds []Cond)
+	walk = func(v ssa.Value, conds []Cond) {
+		ph, ok := v.(*ssa.Phi)
+		if !ok {
+			out = append(out, Outcome{v, conds})
+			return
+		}
+		if seen[ph] {
+			return
+		}
+		seen[ph] = true
+		for i, e := range ph.Edges {
+			p := ph.Block().Preds[i]
+			pc := append([]Cond{}, BlockConds(p)...)
+			if ifi, ok := p.Instrs[len(p.Instrs)-1].(*ssa.If); ok && len(p.Succs) == 2 && p.Succs[0] != p.Succs[1] {
+				pc = append(pc, ExpandConds(flatten(Cond{V: ifi.Cond, Pol: p.Succs[0] == ph.Block(), If: ifi}), 0)...)
+			}
+			walk(e, pc)
+		}
+	}
+	walk(v, BlockConds(at))
+	return out
 }
